@@ -19,6 +19,7 @@ import (
 	"os"
 	"path/filepath"
 	"regexp"
+	"runtime"
 	"sort"
 	"strconv"
 	"strings"
@@ -141,6 +142,10 @@ type Case struct {
 	Ops    []Op `json:"ops"`
 	// KindChange marks cases whose schema type changes: only the correspondence is checked on them
 	KindChange bool `json:"kindChange,omitempty"`
+	// LateStops: the case runs on one P without the harness ever blocking between a stop of the remote wrapper and the
+	// next creation of a counter, so the goroutines the stopped wrapper left behind run AFTER that creation (a legal
+	// schedule: they are runnable, nothing orders them before it)
+	LateStops bool `json:"lateStops,omitempty"`
 }
 
 type Lim struct {
@@ -186,7 +191,12 @@ type Extra struct {
 	TBAllowed int    `json:"tbAllowed"` // what the bucket printed by String() can have admitted in that time: burst + qps*elapsed + 2
 	Str       string `json:"str"`       // String() of the limiter handed out
 	WaitInfl  int64  `json:"waitInflight"`
-	CurrToken int64  `json:"currentToken"`
+	// a count wrapper is in force but no counter is registered for it (nobody will ever ask the server for it)
+	NoCounter bool `json:"noCounter,omitempty"`
+	// after an admission through the remote max-in-flight limiter: the unfinished requests admitted through this same
+	// remote wrapper as max-in-flight, this one included (0: not an admission of that kind)
+	HeldRemote int   `json:"heldRemote,omitempty"`
+	CurrToken  int64 `json:"currentToken"`
 }
 
 // ---------------------------------------------------------------------------------------------------------------
@@ -402,6 +412,9 @@ type counterState struct{ exists, event bool }
 func runImpl(c *rig.Ctx, cs Case, rnd func(int) int) (res runResult) {
 	ctx, cancel := context.WithCancel(context.Background())
 	defer cancel()
+	if cs.LateStops {
+		defer runtime.GOMAXPROCS(runtime.GOMAXPROCS(1))
+	}
 	bare := clientsets.VerifNewBare("gw-verif-1", infoSrv.URL)
 	var csArg clientsets.ClientSets
 	if cs.Cfg.HasCS {
@@ -431,6 +444,8 @@ func runImpl(c *rig.Ctx, cs Case, rnd func(int) int) (res runResult) {
 	hadRemote := false
 	// requests in flight keep the limiter they were handed
 	handles := map[int]flowcontrol.FlowControl{}
+	heldMI := map[int]bool{} // admitted by a remote limiter of type max-in-flight
+	heldRemote := 0
 	var lastAdmit *bool
 	unixS := func(ns int64) int64 {
 		if ns >= 0 {
@@ -442,6 +457,7 @@ func runImpl(c *rig.Ctx, cs Case, rnd func(int) int) (res runResult) {
 	msg, panicked := rig.Recover(func() {
 		ul = flowcontrols.NewUpstreamLimiter(ctx, cluster, cs.Cfg.RateLimiter, csArg)
 		for _, op := range cs.Ops {
+			heldRemote = 0
 			switch op.Op {
 			case "schema":
 				ul.Sync(proxyv1alpha1.FlowControl{Schemas: []proxyv1alpha1.FlowControlSchema{op.Schema.api()}})
@@ -505,12 +521,22 @@ func runImpl(c *rig.Ctx, cs Case, rnd func(int) int) (res runResult) {
 					lastAdmit = &ok
 					if ok {
 						handles[op.ID] = fc
+						if cache != nil && cache.FlowControl() != nil && fc == flowcontrol.FlowControl(cache.FlowControl()) &&
+							fc.Type() == proxyv1alpha1.MaxRequestsInflight {
+							heldMI[op.ID] = true
+							for id, h := range handles {
+								if h == fc && heldMI[id] {
+									heldRemote++
+								}
+							}
+						}
 					}
 				}
 			case "release":
 				if fc, held := handles[op.ID]; held {
 					fc.Release()
 					delete(handles, op.ID)
+					delete(heldMI, op.ID)
 				}
 			case "tick":
 				advance(op.Now)
@@ -532,19 +558,28 @@ func runImpl(c *rig.Ctx, cs Case, rnd func(int) int) (res runResult) {
 				panic("harness: unknown op " + op.Op)
 			}
 			cnt := counterState{}
+			noCounter := false
 			if cache != nil {
 				if hadRemote && !remote.VerifHasRemote(cache) {
 					// The remote wrapper was stopped: every globalCounterManager.Add made under it left a goroutine that now
 					// calls Stop(name) — by name, asynchronously: run late it would stop the counter of a LATER wrapper.
 					// They were made runnable by the close; give them a millisecond. (If one still comes late, the count
 					// wrapper is found without its counter below and the case is run again.)
-					remote.VerifSettleCounter(cache)
-					time.Sleep(time.Millisecond)
+					// A LateStops case deliberately does not: there they run when the harness first yields after the NEXT
+					// counter was registered (VerifCounter waits for its resetCheck goroutine).
+					if !cs.LateStops {
+						remote.VerifSettleCounter(cache)
+						time.Sleep(time.Millisecond)
+					}
 				}
 				hadRemote = remote.VerifHasRemote(cache)
 				exists, isNew, ev, ls := remote.VerifCounter(cache)
+				if cs.LateStops && isNew {
+					time.Sleep(time.Millisecond) // whatever was left over has run now
+					exists, _, ev, ls = remote.VerifCounter(cache)
+				}
 				if w := remote.VerifDumpRemote(cache).Wrapper; (w == 2 || w == 3) && !exists {
-					res.Unreliable = true // a stale Stop(name) removed the counter of the wrapper in force
+					noCounter = true // a stale Stop(name) removed the counter of the wrapper in force
 				}
 				_ = isNew
 				if exists && (isNew || ls != remote.VerifLastSyncMark) {
@@ -555,6 +590,7 @@ func runImpl(c *rig.Ctx, cs Case, rnd func(int) int) (res runResult) {
 				cnt = counterState{exists: exists, event: ev}
 			}
 			o, x := observe(cs, ul, cache, bare, lastRet, rnd)
+			x.NoCounter, x.HeldRemote = noCounter, heldRemote
 			if cnt.exists {
 				remote.VerifSetEvent(cache, cnt.event) // the probes went through Count too
 				if o.WKind == 2 || o.WKind == 3 {
@@ -754,6 +790,47 @@ func evaluate(c *rig.Ctx, cs Case, rnd func(int) int) (*failure, runResult) {
 	// judge first: the property on the implementation's own output. When the schema TYPE changes inside the case
 	// (outside the property's quantifier: the remote limiter of the old type stays until the next same-type answer)
 	// only the clauses that do not depend on the remote limiter's size and type are applied.
+	// a panic of the real code: in production it is in the counter manager's reply goroutine, resetCheck, or the
+	// controller's Sync — nothing recovers it, the gateway process dies
+	if res.Panic != "" && !strings.HasPrefix(res.Panic, "harness:") {
+		i := len(res.Obs)
+		opStr := ""
+		if i < len(cs.Ops) {
+			opStr = rig.Canon(cs.Ops[i])
+		}
+		return &failure{kind: "judge", class: "c09.panics", step: i, impl: res.Panic,
+			what: fmt.Sprintf("op %d (%s) panics in the real code: %s", i, opStr, firstLine(res.Panic))}, res
+	}
+	// harness-side clauses on the implementation's output that the Lean judge does not have (yet)
+	schemaKind := ""
+	for i, x := range res.Extra {
+		o := res.Obs[i]
+		if op := cs.Ops[i]; op.Op == "schema" && op.Schema != nil {
+			switch {
+			case op.Schema.Exempt:
+				schemaKind = "Exempt"
+			case op.Schema.MI != nil || op.Schema.GMI != nil:
+				schemaKind = "MaxRequestsInflight"
+			default:
+				schemaKind = "TokenBucket"
+			}
+		}
+		if o.Choice == "remote" && o.Lim != nil && schemaKind != "" && o.Lim.Kind != schemaKind {
+			return &failure{kind: "judge", class: "c09.old-type-limiter-handed-out", step: i, impl: o,
+				what: fmt.Sprintf("after op %d (%s) the schema in force is of type %s but requests are handed the remote limiter %q: nothing the schema configures is enforced",
+					i, rig.Canon(cs.Ops[i]), schemaKind, x.Str)}, res
+		}
+		if x.NoCounter {
+			return &failure{kind: "judge", class: "c09.count-wrapper-without-counter", step: i, impl: o,
+				what: fmt.Sprintf("after op %d (%s) the count wrapper in force (%s) has no counter registered: a Stop(name) left over from an earlier wrapper removed it; the instance never asks the limiter server for this flow control again, no quota and no error fallback can reach it",
+					i, rig.Canon(cs.Ops[i]), x.Str)}, res
+		}
+		if x.HeldRemote > 0 && o.RLim != nil && o.RLim.Size != nil && int64(x.HeldRemote) > *o.RLim.Size {
+			return &failure{kind: "judge", class: "c09.inflight-lost-by-rebuild", step: i, impl: o,
+				what: fmt.Sprintf("op %d (%s) was admitted by the remote max-in-flight limiter of size %d although %d requests admitted through the same remote wrapper are unfinished (this one included): a rebuilt limiter forgot them",
+					i, rig.Canon(cs.Ops[i]), *o.RLim.Size, x.HeldRemote)}, res
+		}
+	}
 	for i, v := range m.VerdictImpl {
 		if cs.KindChange {
 			v = keep(v, "c09.ready-hysteresis", "c09.fallback-choice", "c09.local-limit-not-enforced")
@@ -841,6 +918,13 @@ func evaluate(c *rig.Ctx, cs Case, rnd func(int) int) (*failure, runResult) {
 		}
 	}
 	return nil, res
+}
+
+func firstLine(s string) string {
+	if i := strings.IndexByte(s, '\n'); i >= 0 {
+		return s[:i]
+	}
+	return s
 }
 
 func keep(v []string, classes ...string) []string {
